@@ -367,6 +367,15 @@ def run(ctx):
                             lastp = isinstance(at, tuple) and at[0] == "binop" and at[1] == "Sub" and const_int(at[3]) == 1 and length_of(at[2]) is not None
                             if base == fld and ((ae[1] == 40 and first) or (ae[1] == 41 and lastp)):
                                 par.add(ae[1])
+                        # ... or as s.starts_with(b"(") / s.ends_with(b")") (one-byte literals: the first / the last byte)
+                        for c in p.conds():
+                            t_ = c.term
+                            if is_call(t_, "[T]>::starts_with", "[T]>::ends_with") and len(call_args(t_)) == 2 and c.fact == ("eq", True) and strip_refs(call_args(t_)[0]) == fld:
+                                lit = const_bytes(call_args(t_)[1])
+                                if lit == "(" and is_call(t_, "[T]>::starts_with"):
+                                    par.add(40)
+                                if lit == ")" and is_call(t_, "[T]>::ends_with"):
+                                    par.add(41)
                         # the same cut written with the slice API: s.strip_prefix(b"(") and then .strip_suffix(b")") of what is left
                         def payload_of(x, callee, lit):
                             x = strip_refs(x)
